@@ -22,7 +22,7 @@ STUB = ["user code (generated callbacks recording events)", "stdout (sink)"]
 ASSUMPTIONS = ["the event log's global sequence number orders callbacks; object identity is mapped to "
                "its attribute path in the party's tree"]
 REQUIRED_NONZERO = {"*": ["judged_calls", "cb_events", "nonrand_subtrees", "pre_assignments",
-                          "failed_calls_before_judged"]}
+                          "failed_calls_before_judged", "sub_calls"]}
 
 
 def budget(tier):
@@ -48,10 +48,16 @@ def generate(seed, tier):
     own = progs.fields_with_paths(P.cls(top))[0]
     gi = progs.Gen(orng, g.cfg)
     n_ops = orng.randint(6, 16 if tier == "quick" else 40)
+    subs = sub_object_paths(P, top)
     for _ in range(n_ops):
         p = orng.randrange(n_parties)
         r = orng.random()
-        if r < 0.4:
+        if subs and r < 0.12:
+            # a call directly on an object somewhere below the top (also below non-random members)
+            path, cn = orng.choice(subs)
+            ops.append({"op": "frand", "targets": [[p, path]], "k": st.lib.randint(0, 1 << 30),
+                        "sub": cn})
+        elif r < 0.4:
             ops.append({"op": "randomize", "p": p})
         elif r < 0.65:
             inl = progs.strip(gi.stmts(own, 1, lo=1, hi=1)) if own else []
@@ -82,6 +88,22 @@ def shrink(rec):
 
 def tags(rec, viol):
     return []
+
+
+def sub_object_paths(P, cname, base=None, out=None):
+    """(path, class) of every object below an object of class cname (class-level walk)"""
+    if out is None:
+        out = []
+    base = base or []
+    for f in P.fields(cname):
+        if f["k"] == "o":
+            out.append((base + [f["n"]], f["c"]))
+            sub_object_paths(P, f["c"], base + [f["n"]], out)
+        elif f["k"] == "lo":
+            for i in range(f.get("sz", 0)):
+                out.append((base + [f["n"], i], f["c"]))
+                sub_object_paths(P, f["c"], base + [f["n"], i], out)
+    return out
 
 
 def object_paths(P, cname, obj, base=None, out=None, rand_ctx=True):
@@ -171,7 +193,18 @@ def execute(rec):
         final = w.tree(p)
         obs.append((oi, kind, "ok", final, [(e["phase"], e.get("path")) for e in events]))
         stats["judged_calls"] += 1
-        objs = object_paths(P, pt.cname, pt.obj)
+        if op.get("sub"):
+            # the call was made on a sub-object: it is the top of this call
+            spath = op["targets"][0][1]
+            sobj = builder.get_path(w.env, pt.obj, spath)
+            objs = object_paths(P, op["sub"], sobj, base=list(spath))
+            stats["sub_calls"] = stats.get("sub_calls", 0) + 1
+            inside = set(refsem.path_key(path) for (path, o, cn, rc) in objs)
+            allobjs = object_paths(P, pt.cname, pt.obj)
+            objs = objs + [(path, o, cn, False) for (path, o, cn, rc) in allobjs
+                           if refsem.path_key(path) not in inside]
+        else:
+            objs = object_paths(P, pt.cname, pt.obj)
         expected = [refsem.path_key(path) for (path, o, cn, rc) in objs if rc]
         forbidden = [refsem.path_key(path) for (path, o, cn, rc) in objs if not rc]
         if forbidden:
@@ -222,7 +255,10 @@ def execute(rec):
         if viol:
             break
         try:
-            fail = refsem.check_tree(P, pt.cname, final, pt.modes, pt.rangelists, op.get("inline"))
+            if op.get("sub"):
+                fail = refsem.check_tree(P, op["sub"], refsem._walk(final, op["targets"][0][1]))
+            else:
+                fail = refsem.check_tree(P, pt.cname, final, pt.modes, pt.rangelists, op.get("inline"))
         except refsem.RefError:
             stats["ambiguous_skipped"] += 1
             fail = None
